@@ -202,6 +202,10 @@ func refRunS(T string, decls []Decl, vals []*V, statics []Static, skipMissing bo
 	}
 	for i, d := range decls {
 		if len(d.Maps) == 0 {
+			// the value itself; a predecessor of interface type must hand over a value of the successor's input type
+			if d.S == "any" && T != "any" && vals[i].dynType() != T {
+				return nil, "err"
+			}
 			return vals[i], "ok"
 		}
 		for _, m := range d.Maps {
